@@ -253,7 +253,26 @@ def random_cases(rng, tier):
         u = rng.choice([4, 4, 8])
         n = rng.choice([1, 2, 3, 3, 4, 4])
         items = []
-        for _ in range(n):
+        # a third of the single-label problems: balanced truths (every occurring class, 'none' included, equally often)
+        # whose items all have an exact top-score tie involving the true class (e.g. a tag at 1/2 against the 'none' mass)
+        tied = task != "cml" and C >= 2 and rng.random() < 0.33
+        if tied:
+            K = rng.choice([k for k in (1, 2, 3, 4) if k <= C + 1])
+            classes = rng.sample(range(C + 1), K)                    # 0 = 'none'
+            n = K * rng.choice([r for r in (1, 2, 3, 4) if K * r <= 4])
+            for j in range(n):
+                t = classes[j % K]
+                slot = (t - 1) if t else C                            # position in the extended score vector
+                ext = [0] * (C + 1)
+                partner = rng.choice([q for q in range(C + 1) if q != slot])
+                if u == 8 and C >= 2 and rng.random() < 0.5:
+                    third = rng.choice([q for q in range(C + 1) if q not in (slot, partner)])
+                    ext[slot], ext[partner], ext[third] = 3, 3, 2
+                else:
+                    ext[slot] = ext[partner] = u // 2
+                items.append({"t": t, "y": [], "s": ext[:C]})
+            rng.shuffle(items)
+        for _ in range(0 if tied else n):
             if task == "cml":
                 y = [rng.randrange(2) for _ in range(C)]
                 s = [rng.choice([0, 0, u // 2, u, rng.randrange(u + 1), rng.randrange(u + 1)]) for _ in range(C)]
@@ -268,7 +287,7 @@ def random_cases(rng, tier):
                 items.append({"t": rng.randrange(C + 1), "y": [], "s": s})
         if task == "sed":
             for it in items:
-                it["m"] = rng.choice(["both", "both", "both", "pred", "ann", "pred", "ann", "pred0", "ann0"])
+                it["m"] = "both" if tied else rng.choice(["both", "both", "both", "pred", "ann", "pred", "ann", "pred0", "ann0"])
             if not any(it["t"] and not it["m"].startswith("pred") for it in items):
                 continue
         order = list(range(1, n + 1))
